@@ -14,7 +14,7 @@ for d in seeded/*/; do
   id=$(basename "$d")
   case "$id" in *"$filter"*) ;; *) continue;; esac
   [ -f "$d/patch.diff" ] || continue
-  case "$id" in S-*) prop=$(echo "$id" | cut -d- -f2);; *) prop=${id%%-*};; esac
+  case "$id" in S-*|S3-*) prop=$(echo "$id" | cut -d- -f2);; *) prop=${id%%-*};; esac
   if ! git -C $REPO apply "$PWD/$d/patch.diff" 2>/dev/null; then echo "$id: PATCH DOES NOT APPLY"; other=$((other+1)); continue; fi
   VERIF_OUT=/tmp/verif-recheck-out$$ ./check "$prop" quick >/tmp/recheck$$.log 2>&1; rc=$?
   git -C $REPO checkout -- . ; git -C $REPO clean -fdq -- src parser macros tests docs
